@@ -15,6 +15,10 @@ def _from_json(x):
     if isinstance(x, dict):
         if '__bytes__' in x:
             return bytes.fromhex(x['__bytes__'])
+        if '__bytearray__' in x:
+            return bytearray.fromhex(x['__bytearray__'])
+        if '__memoryview__' in x:
+            return memoryview(bytes.fromhex(x['__memoryview__']))
         if '__int__' in x:
             return int(x['__int__'])
         return {k: _from_json(v) for k, v in x.items()}
@@ -163,7 +167,7 @@ def _replay_violation(reg, c, d):
     E = Engine(reg, {})
     pre = State()
     memo = {}
-    env0 = {nm: reflect(E, pre, copy.deepcopy(native_args[nm]) if not isinstance(native_args[nm], (int, bytes, str, type(None))) else native_args[nm], {}) for nm in pnames}
+    env0 = {nm: reflect(E, pre, copy.deepcopy(native_args[nm]) if not isinstance(native_args[nm], (int, bytes, str, type(None), memoryview)) else native_args[nm], {}) for nm in pnames}
     # reflect twice: `pre` is built from a deep copy taken before the call
     pre.frames.append(Frame(dict(env0), fi.module, fi, fi.cls))
     raised = None
